@@ -424,8 +424,8 @@ def _expected_for(mode, base_items):
 
 
 def run(ctx):
-    ctx.hyp("modes-text", lambda: cases(("delimited", "delimited-de", "fixed")), check_case, ctx.n(800, 20000))
-    ctx.hyp("modes-sheets", lambda: cases(("excel", "ods")), check_case, ctx.n(200, 5000))
+    ctx.hyp("modes-text", lambda: cases(("delimited", "delimited-de", "fixed")), check_case, ctx.n(2000, 20000))
+    ctx.hyp("modes-sheets", lambda: cases(("excel", "ods")), check_case, ctx.n(500, 5000))
     ctx.hyp("faults", fault_cases, check_fault, ctx.n(500, 12000))
     blocks = _block_cases(not ctx.quick)
     ctx.par(_block_shard, [(i, ctx.workers, blocks) for i in range(ctx.workers)])
